@@ -157,6 +157,11 @@ func genBenign(r rng) *Spec {
 		}
 		s.Actions = append(s.Actions, a)
 	}
+	if r.chance(0.5) {
+		// preemption-sized delays at the in-library windows (never long enough to
+		// threaten the premise: a refresh delayed by H/8 is far from a lapse)
+		s.YieldP, s.YieldMax = 0.3, minH/8
+	}
 	s.Duration = T/2 + 8*sec
 	s.Sample = hBase / 2
 	if s.Sample > 250*ms {
